@@ -83,7 +83,8 @@ func (a *ArgMax) Apply(inputs []tensor.Tensor) ([]tensor.Tensor, error) {
 
 	// The tensor.Argmax function returns data of type int, but according to
 	// the ONNX standard this operator should return int64.
-	backing, ok := reduced.Data().([]int)
+	// For a rank-1 input without keepdims the result is a scalar, whose data is not a slice.
+	backing, ok := ops.IfScalarToSlice(reduced.Data()).([]int)
 	if !ok {
 		return nil, ops.ErrTypeAssert("int", reduced.Dtype())
 	}
